@@ -336,3 +336,22 @@ def stale_loop_locals(func, loop):
                 out.append((nm, r.stmt if r.kind == "stmt" else r.owner))
                 break
     return out
+
+
+def dropped_parameters(chk, repo, rule, paths, skip=()):
+    """A parameter that its function never reads is an argument that silently has no effect (a wrapper
+    that forgets to pass an option on).  `skip` lists (qualname, parameter) pairs reviewed as interface
+    placeholders."""
+    chk.describe(rule, "every parameter of the functions in " + ", ".join(p.split("/")[-1] for p in paths) + " is used: an option a caller passes is never silently dropped")
+    n = 0
+    for path in paths:
+        for f in repo.module(path).functions.values():
+            if f.parent_func is not None:
+                continue
+            used = {x.id for x in ast.walk(f.node) if isinstance(x, ast.Name) and isinstance(x.ctx, ast.Load)}
+            for p in f.params:
+                if p in ("self", "cls") or p.startswith("_") or (f.qualname, p) in skip:
+                    continue
+                n += 1
+                chk.check(p in used, rule, f, None, f"parameter `{p}` of {f.qualname} is never used: what callers pass for it (e.g. a window, a threshold, a flag) has no effect", site_text=f"{f.qualname}: parameter {p} used", site={"function": f.qualname, "parameter": p}, nontrivial=False)
+    chk.floor(rule, "parameters inspected", n, 20)
